@@ -212,9 +212,12 @@ pub fn check_hist(ctx: &Ctx, pool: &Pool, hist: &[Rec]) -> Check {
             js["latitude"] = json!(la);
             js["longitude"] = json!(lo);
         }
-        let e = own.entry(key).or_insert(Own { count: 0, first: r.ts, last: r.ts, values: BTreeSet::new(), kinds: BTreeSet::new() });
+        // the timestamp as the driver receives it: it travels as JSON text, and serde_json's default float parser may
+        // return the neighbouring f64 (3.9999999999999996 -> 4.0), which matters for the whole-second table fields
+        let ts_wire = serde_json::from_str::<f64>(&serde_json::to_string(&r.ts).unwrap_or_default()).unwrap_or(r.ts);
+        let e = own.entry(key).or_insert(Own { count: 0, first: ts_wire, last: ts_wire, values: BTreeSet::new(), kinds: BTreeSet::new() });
         e.count += 1;
-        e.last = r.ts;
+        e.last = ts_wire;
         e.kinds.insert(r.kind);
         // provenance is judged against the record as the application emits it (main() serialises the record after
         // update_snapshot, which may withdraw registers from it, e.g. an ambiguous BDS 5,0 / 6,0 pair) ...
